@@ -723,6 +723,11 @@ class HostConnectionPool(object):
                 conn.set_keyspace_blocking(self._session.keyspace)
             self._next_trash_allowed_at = time.time() + _MIN_TRASH_INTERVAL
             with self._lock:
+                if self.is_shutdown:
+                    # shutdown() ran while we were connecting and will not see this connection
+                    conn.close()
+                    self.open_count -= 1
+                    return True
                 new_connections = self._connections[:] + [conn]
                 self._connections = new_connections
             log.debug("Added new connection (%s) to pool for host %s, signaling availability",
